@@ -685,10 +685,14 @@ func workingGoroutines() int {
 		}
 		if deep {
 			c++
+			lastWorking = string(blk)
 		}
 	}
 	return c
 }
+
+// lastWorking holds the stack of the last goroutine workingGoroutines counted (diagnostics in the trace).
+var lastWorking string
 
 // Run executes one scenario and appends its trace.
 func Run(w *trace.W, idx int, sc Scenario) error {
@@ -841,10 +845,22 @@ func Run(w *trace.W, idx int, sc Scenario) error {
 	// at the very moment the outcome is known: nothing of the client may still be working, no callback in progress
 	inCbAtWait := int(inCb.Load())
 	aliveNow := 0
+	who := ""
 	if got == 1 {
 		aliveNow = workingGoroutines() - beforeW
+		if aliveNow > 0 {
+			// a goroutine caught on its way out (between its last statement and the end of its function) is not "still
+			// running": what counts is still there a few milliseconds later (a paced sample, a callback, a blocked hand-off are)
+			time.Sleep(3 * time.Millisecond)
+			if again := workingGoroutines() - beforeW; again < aliveNow {
+				aliveNow = again
+			}
+		}
 		if aliveNow < 0 {
 			aliveNow = 0
+		}
+		if aliveNow > 0 {
+			who = lastWorking
 		}
 	}
 	scriptClosed := r.closed.Load()
@@ -904,7 +920,7 @@ func Run(w *trace.W, idx int, sc Scenario) error {
 	}
 	r.mu.Unlock()
 	w.Emit(trace.M{"ev": "wait", "got": got, "extra": extra, "err": errClass(waitErr), "closed": b2i(scriptClosed),
-		"alive": alive, "aliveNow": aliveNow, "inCb": inCbAtWait, "cbAfter": int(r.cbAfter.Load()), "ms": int(time.Since(start).Milliseconds())})
+		"alive": alive, "aliveNow": aliveNow, "who": who, "inCb": inCbAtWait, "cbAfter": int(r.cbAfter.Load()), "ms": int(time.Since(start).Milliseconds())})
 	w.Emit(trace.M{"ev": "end"})
 	return nil
 }
